@@ -305,7 +305,59 @@ def _exh(ctx, desc):
     return ("ok", multiset([D.exp_to_seq(desc, e)[0] for e in exps]))
 
 
+def reuse_probe(ctx, prop):
+    """Combinators used the way programs use them - default arguments, and one block object in two constructions:
+    a construction must not depend on what was built before it in the same process.  Every block is compared
+    (trial count, exhausted IterateSATGen set) with the same expression built from fresh objects and explicit lists."""
+    def count(blk):
+        try:
+            exps = O.synth(blk, O.CAP_SOLUTIONS + 1, "IterateSATGen", timeout=40)
+            return (blk.trials_per_sample(), len(exps), len({json.dumps(e, sort_keys=True) for e in exps}))
+        except O.CallTimeout:
+            return None
+        except Exception as e:
+            return ("exception", type(e).__name__)
+
+    def fac():
+        return sp.Factor("pa", ["a1", "a2"]), sp.Factor("pb", ["b1", "b2"]), sp.Factor("pc", ["c1", "c2", "c3"])
+
+    def cb(f, cs):
+        return quiet(sp.CrossBlock, [f], [f], cs)
+    probes = []
+    # 1. default-argument combinators after constructions whose parts carry constraints
+    A, B, C = fac()
+    quiet(sp.Merge, [cb(A, [sp.Pin(0, (A, "a1"))]), cb(B, [])])
+    quiet(sp.Repeat, cb(A, [sp.AtMostKInARow(1, (A, "a1"))]), [])
+    quiet(sp.Nest, cb(A, [sp.Pin(0, (A, "a2"))]), cb(B, []))
+    A2, B2, C2 = fac()
+    probes.append(("Merge([x, y]) with default arguments", quiet(sp.Merge, [cb(A, []), cb(B, [])]),
+                   quiet(sp.Merge, [cb(A2, []), cb(B2, [])], [], sp.RepeatMode.REPEAT)))
+    probes.append(("Nest(x, y) with default arguments", quiet(sp.Nest, cb(A, []), cb(B, [])),
+                   quiet(sp.Nest, cb(A2, []), cb(B2, []), [])))
+    # 2. one outer block with MinimumTrials nested twice (inner blocks of 2 and 3 trials), then repeated
+    A, B, C = fac()
+    outer = cb(A, [sp.MinimumTrials(4)])
+    quiet(sp.Nest, outer, cb(B, []))
+    A2, B2, C2 = fac()
+    probes.append(("second Nest of an outer block that carries MinimumTrials", quiet(sp.Nest, outer, cb(C, [])),
+                   quiet(sp.Nest, cb(A2, [sp.MinimumTrials(4)]), cb(C2, []), [])))
+    A3, B3, C3 = fac()
+    probes.append(("Repeat of an outer block that was nested before", quiet(sp.Repeat, outer, [sp.MinimumTrials(8)]),
+                   quiet(sp.Repeat, cb(A3, [sp.MinimumTrials(4)]), [sp.MinimumTrials(8)])))
+    for what, used, fresh in probes:
+        a, b = count(used), count(fresh)
+        ctx.count(prop + ".reuse-probe")
+        ctx.case((prop, "reuse-probe", what), True)
+        if a is not None and b is not None and a != b:
+            ctx.fail("%s: %s: (trials, sequences, distinct) = %s, the same expression built from fresh objects and explicit "
+                     "lists gives %s" % (prop, what, a, b), {"kind": "reuse-probe", "prop": prop})
+            return
+
+
 def oracle_c24(ctx, budget_s):
+    reuse_probe(ctx, "C24")
+    if ctx.failures:
+        return
     rng = ctx.rng
     ctx.rules.append("C24 oracle: both sides of each documented equivalence are built from fresh objects and exhausted "
                      "with IterateSATGen; the multisets of sequences must be equal: MultiCrossBlock vs Merge of "
@@ -321,7 +373,27 @@ def oracle_c24(ctx, budget_s):
         lf = {"factors": [col, siz], "block": {"k": "cross", "design": [0, 1], "crossing": [0, 1], "rcc": False, "cs": cs}}
         for lw in ("repeat-nil", "repeat-merge", "merge-single", "merge-default", "cross-multicross"):
             fixed.append((json.loads(json.dumps(lf)), lw))
+    tcol, tsiz = O._sf(0, ["r", "g"]), O._sf(1, ["big", "small"])
+    ttr = O._transition(3, 0, 2)
+    for al in ("parallel start", "post preamble"):
+        x = {"k": "multicross", "design": [0, 1, 3], "crossings": [[1], [0, 3]], "cs": [], "rcc": True, "mode": "repeat", "align": al}
+        fixed.append(({"factors": [tcol, tsiz, ttr], "block": x}, "merge-x"))
     while ctx.elapsed() < t_end:
+        if fixed and fixed[0][1] == "merge-x":
+            # Merge([x]) = x for a MultiCrossBlock with a non-default alignment and crossings of different preambles
+            xd, _ = fixed.pop(0)
+            lhs = {"factors": xd["factors"], "block": {"k": "merge", "bs": [xd["block"]], "cs": [], "mode": "repeat", "align": None, "defaults": True}}
+            a, c = _exh(ctx, lhs), _exh(ctx, xd)
+            ctx.count("C24.merge-aligned")
+            ctx.case(("C24", "merge-x", json.dumps(lhs, sort_keys=True)), a[0] == "ok" and c[0] == "ok")
+            regs = OD.regions(xd)
+            if a != c and c[0] == "ok" and "F22" not in regs:
+                case = O.Case(ctx, lhs)
+                case.regs = regs
+                report(ctx, "law", case, "Merge([x]) with x a %s MultiCrossBlock: %s; x itself: %d solutions" % (
+                    xd["block"]["align"], a[0] if a[0] != "ok" else "%d solutions" % sum(a[1].values()), sum(c[1].values())), {"law": "merge-x"})
+                return
+            continue
         if fixed:
             leaf, law = fixed.pop(0)
             ctx.count("C24.incomplete-crossing")
@@ -417,6 +489,9 @@ def _project(desc_sub, seq, lo, hi, step=1):
 
 
 def oracle_c25(ctx, budget_s):
+    reuse_probe(ctx, "C25")
+    if ctx.failures:
+        return
     rng = ctx.rng
     ctx.rules.append("C25 oracle: Nest(outer, inner) of generated leaf blocks without preambles: length = outer trials "
                      "x inner trials; each group of inner-length trials projected on the inner design is valid for the "
@@ -553,6 +628,9 @@ def oracle_c25(ctx, budget_s):
 
 
 def oracle_c26(ctx, budget_s):
+    reuse_probe(ctx, "C26")
+    if ctx.failures:
+        return
     rng = ctx.rng
     ctx.rules.append("C26 oracle: Repeat(b, [MinimumTrials(r x size)]) of generated leaf blocks without preambles or "
                      "multi-trial windows: a sequence is returned iff every repetition, projected, is valid for b alone "
@@ -893,7 +971,14 @@ def oracle_c05(ctx, budget_s):
                      "the same probability (product of the bounds) and their number must equal the candidate count "
                      "RandomGen uses as its stopping criterion; (b) the exhausted RandomGen run returns every valid "
                      "sequence exactly once (accepted candidates <-> Spec.validSeqs)")
-    for case in gen_cases(ctx, budget_s, max_trials=5):
+    def first(desc):
+        # where candidates are filtered after they are drawn: an Exclude on a basic factor outside the crossing
+        # (above all one that feeds a crossed derived factor), and preambles
+        fs = OD._fmap(desc)
+        crossed = set(x for cr in OD._crossings(desc["block"]) for x in cr)
+        return any(c["k"] == "Exclude" and fs[c["f"]]["window"] is None and c["f"] not in crossed
+                   for c in D.all_constraints(desc["block"]))
+    for case in gen_cases(ctx, budget_s, max_trials=5, prefer=first):
         if not case.random_ok(bound=2500):
             ctx.count("skip.random-space")
             continue
